@@ -110,6 +110,18 @@ Theorem C02_nearest_default_units : forall lv,
 Proof. exact inherited_spec. Qed.
 Print Assumptions C02_nearest_default_units.
 
+(** Typedef names are resolved lexically: two sibling scopes defining the same name "t" (int32 with
+    range, default and units in one, string with another default in the other) give each leaf the
+    typedef of its own scope, and both results are what the RFC oracle of the check accepts. *)
+Example C02_sibling_scopes_lexical :
+  (exists t, compile_uses true (leaf_fuel E_sib l_sib_x) E_sib l_sib_x 1 = Ok [(t, Some [T "5"], T "s")]
+             /\ t_format t = 11 /\ t_ranges t = [T "1..60"])
+  /\ (exists t, compile_uses true (leaf_fuel E_sib l_sib_y) E_sib l_sib_y 1 = Ok [(t, Some [T "none"], [])]
+                /\ t_format t = fmt_list FmtString /\ t_ranges t = [])
+  /\ model_meets_spec E_sib l_sib_x 1 = true /\ model_meets_spec E_sib l_sib_y 1 = true.
+Proof. exact sibling_scopes. Qed.
+Print Assumptions C02_sibling_scopes_lexical.
+
 (** non-vacuity: a leaf-list of a union over a two-level typedef chain, a restricted enumeration and
     a relative leafref, in a grouping used three times, meets every hypothesis *)
 Example C02_hyps_met :
